@@ -57,7 +57,7 @@ var HCTRVectors = []struct {
 	{ // 60 bytes, (len-16) mod 16 = 12
 		kat38aPT[:120],
 		"f7505aff357ac13107cdb2848c6bb2dcdda473f7a6ea939d44f52c986c11ca9341042f2b0091a1ca5c8f708cae8ca6a5c59e2228b3616c4455627722",
-		true,
+		false, // only the defect model reproduces this one
 	},
 	{ // 16 bytes, (len-16) mod 16 = 0, empty N
 		kat38aPT[:32],
